@@ -143,65 +143,3 @@ Proof.
     unfold boundary, handle_message, q, after; cbn. rewrite H6. repeat split; auto.
 Qed.
 
-(* ---------- messages: a request with or without a Content-Length body ---------- *)
-Record msg := { mreq : req; mbody : option bytes }.
-
-Definition render_msg (m : msg) : bytes :=
-  match mbody m with
-  | None => render (mreq m)
-  | Some b =>
-      let r := mreq m in
-      rmethod r ++ [SP] ++ rtarget r ++ [SP] ++ rproto r ++ [CR; LF] ++
-      concat (map render_hdr (rhdrs r)) ++ render_hdr (cl_hdr (N.of_nat (length b))) ++ [CR; LF] ++ b
-  end.
-
-Definition meaning_msg (m : msg) : list event :=
-  match mbody m with
-  | None => meaning (mreq m)
-  | Some b =>
-      let r := mreq m in
-      [EMethod (rmethod r); EURL (rtarget r); EProto (rproto r)] ++
-      map (fun h => EHeader (canonical (hname h)) (hvalue h)) (rhdrs r) ++
-      [EHeader k_CL (dec (N.of_nat (length b))); EContentLength (Z.of_nat (length b))] ++ body_events b ++ [EComplete]
-  end.
-
-Definition wf_msg (m : msg) : Prop :=
-  wf_req (mreq m) /\ match mbody m with None => True | Some b => N.of_nat (length b) < LIM end.
-
-Theorem c07_roundtrip_msg m p rest :
-  wf_msg m -> boundary p ->
-  exists p', boundary p' /\ run_bytes p (render_msg m ++ rest) [] = run_bytes p' rest (meaning_msg m).
-Proof.
-  intros (Hr & Hb) Hp. unfold render_msg, meaning_msg. destruct (mbody m) as [b|]; [|now apply c07_roundtrip_nobody].
-  set (r := mreq m) in *. set (n := N.of_nat (length b)) in *.
-  destruct Hr as (Hm & (c1 & t1 & Ht1 & Hc1 & Hf1) & (c2 & t2 & Ht2 & Hc2 & Hc2' & Hf2) & Hh).
-  destruct Hp as (Bs & Bt & Bp & Bk & Bv & B1 & B2 & B3 & B4 & B5 & B6 & B7).
-  rewrite Ht1, Ht2. repeat (rewrite <- app_assoc; cbn [app]).
-  rewrite run_method by auto.
-  rewrite run_target by auto.
-  rewrite run_proto by auto.
-  set (q := set_tok [] _).
-  assert (Hq : hdr_state q) by (unfold hdr_state, q; cbn; auto).
-  match goal with |- context[run_bytes q _ ?a] =>
-    destruct (run_hdrs (rhdrs r) q (render_hdr (cl_hdr n) ++ CR :: LF :: b ++ rest) a Hq Hh)
-      as (q1 & Hq1 & F1 & F2 & F3 & F4 & F5 & F6 & F7 & Hrun)
-  end.
-  rewrite Hrun.
-  match goal with |- context[run_bytes q1 _ ?a] =>
-    destruct (run_hdr_any q1 (cl_hdr n) (CR :: LF :: b ++ rest) a Hq1 (wf_cl_hdr n))
-      as (q2 & Hq2 & _ & G1 & G2 & G3 & G4 & G5 & G6 & G7 & Hrun2)
-  end.
-  rewrite Hrun2.
-  cbn [cl_hdr hname hvalue] in *. rewrite canonical_cl in *.
-  assert (Hrec : record_hdr k_CL (dec n) q1 = set_hdrs (h_te q1) (h_cl q1 ++ [dec n]) (h_tr q1) q1) by reflexivity.
-  rewrite Hrec in G1, G2, G3. cbn [h_te h_cl h_tr set_hdrs] in G1, G2, G3.
-  match goal with |- context[run_bytes q2 _ ?a] =>
-    destruct (run_end_cl q2 b rest a n Hq2) as (p' & Hb' & Hrun3); auto;
-      try (unfold q in *; cbn in *; congruence)
-  end.
-  { rewrite G2, F2. unfold q. cbn. rewrite B2. reflexivity. }
-  exists p'. split; auto. rewrite Hrun3.
-  f_equal. unfold n. rewrite nat_N_Z. repeat (rewrite <- app_assoc; cbn [app]). reflexivity.
-Qed.
-
-Print Assumptions c07_roundtrip_msg.
